@@ -404,7 +404,7 @@ fn run_shard(ctx: &ShardCtx, acc: &mut Acc) {
     }
     }
     // ---- random strings -------------------------------------------------------------------------
-    let cases = ctx.tier.pick(5_000, 200_000);
+    let cases = ctx.tier.pick(15_000, 200_000);
     drive(ctx, "random", cases, 3_000, acc, &|ch, acc| {
         let bytes = random_bytes(ch);
         if bytes.len() > 300 {
